@@ -1,0 +1,12 @@
+//go:build verif
+
+package proxy
+
+// Verification hooks (build tag verif): thin exported wrappers around unexported helpers so that the
+// correspondence harness in /verif can call the real code in-process. No behaviour is changed.
+
+// VerifI32toa exposes i32toa.
+func VerifI32toa(n int32) string { return i32toa(n) }
+
+// VerifUint16Base16 exposes uint16base16.
+func VerifUint16Base16(n uint16) string { return uint16base16(n) }
